@@ -19,7 +19,9 @@
 //	        | (p11 set vr) | (p12 cov (vr ...)) | (p21 ((left right vr vr) ...)) | (p22 set cls cls (((vr vr) ...) ...))
 //	        | (p31 cov ((entryx entryy exitx exity) ...)) | (p41 cov cov ((class x y) ...) (((x y) ...) ...)) | p51 | (p61 ...)
 //
-// Oracle-only lines start with "!".
+// Oracle-only lines start with "!": !read (run.go), !twin (deep.go), !layout
+// (layout.go), !layout2 (layout2.go).  The stream of nested lookups that share
+// a part of their meta data (histories in both orders) is in hist.go.
 package c07
 
 import (
